@@ -21,5 +21,29 @@ for name in $ids; do
   echo "$name $pid rc=$rc $v"
   git -C /repo worktree remove --force $wt
 done
+# a partial run keeps the rows of the seeds it did not run
+python3 - "$out" "$out.tmp" <<'PY'
+import re, sys
+old, new = sys.argv[1], sys.argv[2]
+rows = {}
+try:
+    for l in open(old):
+        m = re.match(r"\| (C\d+\w*) \|", l)
+        if m:
+            rows[m.group(1)] = l
+except FileNotFoundError:
+    pass
+head = []
+for l in open(new):
+    m = re.match(r"\| (C\d+\w*) \|", l)
+    if m:
+        rows[m.group(1)] = l
+    else:
+        head.append(l)
+with open(new, "w") as f:
+    f.writelines(head)
+    for k in sorted(rows):
+        f.write(rows[k])
+PY
 mv $out.tmp $out
 git -C /repo worktree prune
